@@ -61,6 +61,12 @@ def load_plugins(config: 'ConfigService', custom=None) -> List['Plugin']:
     """
     if custom is None:
         custom = []
+    elif isinstance(custom, str):
+        # one name, or names separated by commas (how a list is written in an environment variable)
+        custom = [name.strip() for name in custom.split(',') if name.strip()]
+    else:
+        # any collection of names: a tuple or a set cannot be added to our list
+        custom = list(custom)
     loaded = []
     for plugin in __plugin_generator(DEEP_PLUGINS + custom):
         try:
@@ -70,7 +76,8 @@ def load_plugins(config: 'ConfigService', custom=None) -> List['Plugin']:
                 continue
             # a plugin that cannot tell its order is a plugin we cannot load, it must not stop the others
             order = plugin_instance.order() or 0
-            if not isinstance(order, (int, float)):
+            if not isinstance(order, (int, float)) or order != order:
+                # (NaN is a float, but nothing one can sort by: one such entry leaves the whole list unsorted)
                 raise TypeError("order of plugin %s is not a number: %s" % (plugin_instance.name, order))
             loaded.append((order, len(loaded), plugin_instance))
         except BaseException as e:
